@@ -65,6 +65,9 @@ func VerifC17_QueuedIdsOfEveryOutputAreTakenOver() {
 	inUnion := map[string]bool{}
 	for o := 0; o < nOut; o++ {
 		var ids []string
+		if o == 0 && sym.Bool("malformedIdFirst") {
+			ids = append(ids, "leftover-of-another-key-count") // ignored with a warning; must not stop the take-over of the others
+		}
 		for _, id := range all {
 			if sym.Bool("queued") {
 				ids = append(ids, id)
@@ -87,7 +90,7 @@ func VerifC17_QueuedIdsOfEveryOutputAreTakenOver() {
 			}
 		}
 		if inUnion[id] {
-			sym.Assert(n == 1, "a pipeline is re-created for every queue id that some output still holds on disk")
+			sym.Assert(n == 1, "a pipeline is re-created for every well-formed queue id that some output still holds on disk")
 			sym.Reach("some-queued")
 		} else {
 			sym.Assert(n == 0, "no pipeline without queued chunks or traffic")
